@@ -390,7 +390,7 @@ func genACase(t *rapid.T) *acase {
 		gs.seq["os1"] = 0
 	}
 	for i := 0; i < 3; i++ {
-		c.connModes = append(c.connModes, rapid.SampledFrom([]string{"drain", "drain", "read1close", "closenow", "write"}).Draw(t, "connmode"))
+		c.connModes = append(c.connModes, rapid.SampledFrom([]string{"drain", "drain", "read1close", "closenow", "write", "writeblock"}).Draw(t, "connmode"))
 	}
 	n := rapid.IntRange(1, 20).Draw(t, "nsteps")
 	for i := 0; i < n; i++ {
